@@ -141,6 +141,46 @@ CLAIMED = {
              "directory level (31 d month, 366 d year / non-temporal directory "
              "part), all files without sub directory; ties may go either way; "
              "timestamp space sampled."),
+    "C04": dict(
+        category="exploration", design_ref="DESIGN.md 3/C04",
+        technique="deterministic simulation: seeded call histories on one "
+                  "Collocator object with the index-shuffle permutation drawn "
+                  "from the tape, each call checked against a brute-force "
+                  "O(n*m) collocation",
+        text="One Collocator per run receives 2-7 collocate() calls on "
+             "datasets from a small pool (unchanged, swapped, perturbed by "
+             "less than np.allclose's tolerance, size ratios across "
+             "magnitude_factor; linear and gridded layouts, NaNs, windows, "
+             "unit strings, rarely the >10^6-candidate binned path); the "
+             "permutation of the spatial index shuffle is a tape choice. Every "
+             "call's pairs, intervals and distances are compared with a brute "
+             "force, so a dependence on earlier calls shows as a wrong answer "
+             "of a later call. Histories and inputs are sampled.",
+        note="Inputs carry unique dimension labels (the documented contract; "
+             "unlabelled dimensions are silently mis-selected by "
+             "_prepare_data - recorded as an observation in DESIGN.md); border "
+             "pairs within 1e-6 km are not verdict relevant."),
+    "C06": dict(
+        category="exploration", design_ref="DESIGN.md 3/C06",
+        technique="deterministic simulation of a randomised structure: the "
+                  "permutation returned by np.random.shuffle inside GeoIndex "
+                  "is chosen by the tape (identity / reverse / match on tree "
+                  "position 0 / seeded random); answers checked against a "
+                  "dense distance matrix",
+        text="The 'schedule' of GeoIndex is its internal shuffle; the "
+             "simulator owns it through a proxy for numpy inside "
+             "typhon.geographical and targets the permutations the property "
+             "singles out (an expected match on tree position 0). Build/query "
+             "points (duplicates, poles, date line, antipodes), both metrics, "
+             "both tree classes, leaf sizes and radius spellings are drawn "
+             "from the tape; pairs and distances are compared with the "
+             "harness's own chord / great-circle matrix. Sampled, not "
+             "enumerated.",
+        note="Radii lie between distinct distance values (never within 1 mm of "
+             "one) and do not exceed half the circumference for haversine; "
+             "exact antipodes under haversine are numerically singular in "
+             "scikit-learn and treated as border cases; KD+haversine is not a "
+             "supported pairing."),
 }
 
 NOT_APPLICABLE = {
